@@ -23,9 +23,9 @@ Recipe = dict[str, Any]
 
 
 def gen_dag(rng: random.Random, *, input_spec: Recipe, sum_spec: Recipe, max_vars: int = 4,
-            nc: int = 1) -> Recipe:
+            nc: int = 1, min_units: int = 1) -> Recipe:
     n = rng.randint(2, max_vars)
-    K = rng.randint(1, 3)
+    K = rng.randint(min_units, 3)
     nodes: list[Recipe] = []
     scope: list[frozenset[int]] = []
 
